@@ -7,6 +7,7 @@ from __future__ import annotations
 import asyncio
 import struct
 
+from props import loggen
 from simkit import loop as L
 from simkit import recfmt, scenario
 
@@ -146,6 +147,26 @@ def gen_plan(prop, seed, index, tier="quick"):
             logs.append({"tp": f"{t}/{p}", "n": n,
                          "appends": sorted(round(r.uniform(0.1, horizon * 0.5), 3)
                                            for _ in range(r.choice([0, 1, 3, 6])))})
+    if prop in ("C04", "C05") and r.random() < 0.4:
+        # rich logs: transactions of several producers (committed / aborted / open),
+        # markers, compaction gaps, compressed and legacy batches - the records a commit
+        # may pass are the *visible* ones of the member's isolation level
+        for lg in logs:
+            t, p = lg["tp"].rsplit("/", 1)
+            lr = scenario.rng_for(seed, prop, index, "log", lg["tp"])
+            descs, end = loggen.gen_log(lr, t, int(p), nrec=lr.randint(0, 40),
+                                        legacy=lr.random() < 0.3, txn=True,
+                                        compaction=lr.random() < 0.5)
+            lg["descs"] = descs
+            segs = []
+            for at in lg["appends"]:
+                more, end = loggen.gen_log(lr, t, int(p), nrec=lr.randint(1, 6), legacy=False,
+                                           txn=lr.random() < 0.5, compaction=False, start=end)
+                segs.append({"at": at, "descs": more})
+            lg["segments"] = segs
+        base_kw["isolation_level"] = r.choice(["read_committed", "read_committed", "read_uncommitted"])
+        base_kw["max_partition_fetch_bytes"] = r.choice([300, 1000, 1048576, 1048576])
+        base_kw["check_crcs"] = r.random() < 0.7
     committed = {}
     if prop == "C13":
         for lg in logs:
@@ -252,11 +273,24 @@ def execute(plan):
                 for i in range(n)]
         part.add_stored(recfmt.encode_v2(base, recs))
 
+    mbytes = 0
     for lg in plan["logs"]:
         t, p = lg["tp"].rsplit("/", 1)
+        if "descs" in lg:
+            loggen.materialise(cl, t, int(p), lg["descs"])
+            for seg in lg.get("segments", []):
+                world.at(seg["at"], loggen.materialise, cl, t, int(p), seg["descs"])
+                for d in seg["descs"]:
+                    mbytes = max(mbytes, len(loggen.encode_desc(t, int(p), d)))
+            continue
         append((t, int(p)), lg["n"])
         for at in lg["appends"]:
             world.at(at, append, (t, int(p)), 1 + (int(at * 1000) % 3))
+    if "max_partition_fetch_bytes" in kw:
+        # generators never create a batch that cannot be fetched (RecordTooLarge skips by design)
+        kw = dict(kw)
+        kw["max_partition_fetch_bytes"] = max(kw["max_partition_fetch_bytes"],
+                                              max(mbytes, loggen.max_batch_bytes(cl)) + 1)
     for key, off in plan.get("committed", {}).items():
         t, p = key.rsplit("/", 1)
         cl.group_offsets.setdefault(GROUP, {})[(t, int(p))] = (off, "")
@@ -327,7 +361,7 @@ def execute(plan):
         m.deliveries.append((seq, tp, rec.offset, m.owned is not None and tp in m.owned,
                              len([c for c in m.callbacks if c["kind"] == "assigned"])))
         want = f"{tp[0]}-{tp[1]}@{rec.offset}".encode()
-        if rec.value != want:
+        if (rec.value or b"").rstrip(b".") != want:
             world.violation(prop if prop in ("C04", "C05") else "C05", "record_content_differs",
                             {"tp": list(tp), "offset": rec.offset, "got": repr(rec.value)[:60]})
 
@@ -613,6 +647,10 @@ def _starts_for(served, cid, tp, lo, hi):
     return out
 
 
+def _iso(plan):
+    return 1 if plan["kw"].get("isolation_level") == "read_committed" else 0
+
+
 def check_deliveries(plan, world, cl, ctx, prop):
     """Shared C04(2)/C05: per assignment incarnation deliveries are the contiguous
     visible records from a start the brokers gave this member."""
@@ -633,15 +671,19 @@ def check_deliveries(plan, world, cl, ctx, prop):
                 starts = {v for k, v in cands}
                 if getattr(m, "seeked", False):
                     starts.add(part.log_start)
-                first_ok = offs[0] in starts
+                vis = [r.offset for r, b in part.visible_records(_iso(plan))]
+                nxt = {a: b for a, b in zip(vis, vis[1:])}
+                firsts = {next((o for o in vis if o >= s_), None) for s_ in starts}
+                first_ok = offs[0] in firsts
                 if not first_ok:
                     world.violation(prop, "delivery_not_from_handover_point", {
                         "member": m.cid, "tp": list(tp), "first_delivered": offs[0],
                         "served": sorted(map(list, cands))[:6]})
                 for a, b in zip(offs, offs[1:]):
-                    if b != a + 1:
+                    if nxt.get(a) != b:
                         world.violation(prop, "delivery_not_contiguous", {
-                            "member": m.cid, "tp": list(tp), "after": a, "got": b})
+                            "member": m.cid, "tp": list(tp), "after": a, "got": b,
+                            "next_visible": nxt.get(a)})
                         break
         # deliveries outside any ownership window
         for d in m.deliveries:
@@ -690,7 +732,7 @@ def oracle_c04(plan, world, cl, ctx):
         for s in cands:
             if s > c:
                 continue
-            need = [r.offset for r, b in part.visible_records(0) if s <= r.offset < c]
+            need = [r.offset for r, b in part.visible_records(_iso(plan)) if s <= r.offset < c]
             if all(o in ds for o in need):
                 ok = True
                 break
@@ -714,7 +756,7 @@ def oracle_c04(plan, world, cl, ctx):
         for part in cl.all_partitions():
             if part.topic.name not in subscribed:
                 continue
-            missing = [r.offset for r, b in part.visible_records(0)
+            missing = [r.offset for r, b in part.visible_records(_iso(plan))
                        if (part.tp, r.offset) not in delivered]
             if missing:
                 world.violation("C04", "record_never_delivered_to_any_member", {
